@@ -5,7 +5,7 @@
 //! scenario itself compares every result across threads and with a post-join
 //! sequential evaluation.
 //!
-//! usage: miri-scn <shared-eval|lazy-holidays> <workload seed>
+//! usage: miri-scn <shared-eval|lazy-holidays|sun-coords> <workload seed>
 //! (scenario and workload seed come through argv, never through plain env)
 
 use std::sync::Arc;
@@ -159,6 +159,61 @@ fn lazy_holidays(seed: u64) -> Result<String, String> {
     Ok(got.join("|"))
 }
 
+/// Several places evaluated for the same days at the same time: sun events are
+/// computed per (place, day, event); any process-wide memo of them is hit by all
+/// threads with colliding keys.
+fn sun_coords(seed: u64) -> Result<String, String> {
+    use opening_hours::localization::Coordinates;
+    let mut rng = Rng(seed);
+    const PLACES: &[(f64, f64)] = &[(48.8535, 2.3484), (40.7128, -74.006), (35.6762, 139.6503), (-33.8688, 151.2093), (52.52, 13.405)];
+    let n_threads = 3;
+    let first = rng.below(PLACES.len() as u64) as usize;
+    let places: Vec<(f64, f64)> = (0..n_threads).map(|i| PLACES[(first + i) % PLACES.len()]).collect();
+    let base = NaiveDate::from_ymd_opt(2024, 1 + rng.below(12) as u32, 1 + rng.below(28) as u32).unwrap();
+    let dates: Vec<NaiveDate> = (0..3).map(|i| base + chrono::TimeDelta::days(i)).collect();
+    let expr = ["sunrise-sunset", "dawn-dusk", "(sunrise+01:00)-(sunset-00:30)"][rng.below(3) as usize];
+    let make = |p: (f64, f64)| OpeningHours::parse(expr).unwrap().with_context(Context::default().with_locale(TzLocation::new(chrono_tz::UTC).with_coords(Coordinates::new(p.0, p.1).unwrap())));
+    let render = |oh: &OpeningHours<TzLocation<chrono_tz::Tz>>, d: NaiveDate| -> String { oh.schedule_at(d).into_iter().map(|r| format!("[{}-{} {:?}]", r.range.start, r.range.end, r.kind)).collect() };
+    // sequential reference first
+    let expected: Vec<Vec<String>> = places.iter().map(|p| dates.iter().map(|d| render(&make(*p), *d)).collect()).collect();
+    let handles: Vec<_> = places
+        .iter()
+        .copied()
+        .map(|p| {
+            let dates = dates.clone();
+            thread::spawn(move || {
+                let oh = make(p);
+                let mut out = Vec::new();
+                for _round in 0..2 {
+                    for d in &dates {
+                        out.push(render(&oh, *d));
+                    }
+                }
+                out
+            })
+        })
+        .collect();
+    let got: Vec<Vec<String>> = handles.into_iter().map(|h| h.join().map_err(|_| "thread panicked".to_string())).collect::<Result<_, _>>()?;
+    for (pi, g) in got.iter().enumerate() {
+        for (k, s) in g.iter().enumerate() {
+            let want = &expected[pi][k % dates.len()];
+            if s != want {
+                return Err(format!("place {:?} day {}: concurrent evaluation gives {s}, the sequential evaluation gave {want}", places[pi], dates[k % dates.len()]));
+            }
+        }
+    }
+    // later use
+    for (pi, p) in places.iter().enumerate() {
+        for (di, d) in dates.iter().enumerate() {
+            let s = render(&make(*p), *d);
+            if s != expected[pi][di] {
+                return Err(format!("place {p:?} day {d}: evaluation after the threads joined gives {s}, before them it gave {}", expected[pi][di]));
+            }
+        }
+    }
+    Ok(format!("{}", expected.iter().flatten().map(|s| s.len()).sum::<usize>()))
+}
+
 fn main() {
     let args: Vec<String> = std::env::args().collect();
     let scenario = args.get(1).map(|s| s.as_str()).unwrap_or("shared-eval");
@@ -166,8 +221,9 @@ fn main() {
     let r = match scenario {
         "shared-eval" => shared_eval(seed),
         "lazy-holidays" => lazy_holidays(seed),
+        "sun-coords" => sun_coords(seed),
         _ => {
-            eprintln!("usage: miri-scn <shared-eval|lazy-holidays> <workload seed>");
+            eprintln!("usage: miri-scn <shared-eval|lazy-holidays|sun-coords> <workload seed>");
             std::process::exit(2)
         }
     };
